@@ -40,6 +40,15 @@ func macroBody(params []string) []Node {
 	for _, p := range params {
 		ns = append(ns, T("["), O(v(p)), T("]"))
 	}
+	// the parameters are the same in scopes opened inside the body (a with block, a loop)
+	if len(params) > 0 {
+		var in []Node
+		for _, p := range params {
+			in = append(in, T("("), O(v(p)), T(")"))
+		}
+		ns = append(ns, With{Pairs: []Pair{{"zz", Lit{V: IntV(1)}}}, Body: in})
+		ns = append(ns, For{Key: "ii", Over: v("lst"), Body: append([]Node{T(";")}, in[:3]...)})
+	}
 	return append(ns, T("</i>"))
 }
 
@@ -285,6 +294,45 @@ func run(r *eng.Runner) {
 		for _, k := range ks {
 			r.DoIsolated(&DepthCase{K: k, Shape: shape}, 60*time.Second)
 		}
+	}
+
+	// ---- runaway recursion with the call inside a construct of the body ----
+	r.Group("recursion-in-constructs", "c13.rec", "all call graphs over 1..2 macros without a base case x {local file, imported file} x the recursive call written inside a loop over a two-character string, a loop over a list literal, a with block, an if branch, a filter tag: the FIRST path to reach the depth limit ends the whole execution (no exponential re-descent); each in a fresh sub-process")
+	wraps := []func(call string) string{
+		func(c string) string { return `{% for ch in "ab" %}` + c + `{% endfor %}` },
+		func(c string) string { return `{% for ch in [1, 2] %}` + c + `{% endfor %}` },
+		func(c string) string { return `{% with w=1 %}` + c + c + `{% endwith %}` },
+		func(c string) string { return `{% if 1 %}` + c + `{% endif %}` + c },
+		func(c string) string { return `{% filter upper %}` + c + `{% endfilter %}` + c },
+	}
+	for n := 1; n <= 2; n++ {
+		enum.Tuples(n, n, func(callee []int) bool {
+			enum.Tuples(2*len(wraps), n, func(wv []int) bool {
+				names := []string{"ma", "mb"}
+				var mainB, libB strings.Builder
+				var imports []string
+				for i := 0; i < n; i++ {
+					where, wrap := wv[i]&1, wraps[wv[i]>>1]
+					def := fmt.Sprintf("{%% macro %s(x) %s%%}[%s]{%% endmacro %%}", names[i], map[int]string{0: "", 1: "export "}[where], wrap("{{ "+names[callee[i]]+"(x) }}"))
+					if where == 0 {
+						mainB.WriteString(def)
+					} else {
+						libB.WriteString(def)
+						imports = append(imports, names[i])
+					}
+				}
+				files := map[string]string{}
+				main := mainB.String()
+				if len(imports) > 0 {
+					files["/lib"] = libB.String()
+					main = "{% import \"lib\" " + strings.Join(imports, ", ") + " %}" + main
+				}
+				files["/main"] = main + "{{ " + names[0] + "(1) }}"
+				r.DoIsolated(&RecCase{Files: files, Label: fmt.Sprintf("construct graph callee=%v placement=%v", callee, wv)}, 60*time.Second)
+				return !r.Stopped()
+			})
+			return !r.Stopped()
+		})
 	}
 
 	// ---- runaway recursion: every call graph over 1..3 macros in which every macro calls another ----
